@@ -228,7 +228,7 @@ impl IovecExec {
         }
         so.obs.push(format!(
             "L live={}",
-            if mine.is_empty() { "-".to_string() } else { mine.iter().map(|(o, l)| format!("c{}:{}", o, l)).collect::<Vec<_>>().join(",") }
+            if mine.is_empty() { "-".to_string() } else { mine.iter().map(|(o, _)| format!("c{}", o)).collect::<Vec<_>>().join(",") }
         ));
     }
 
